@@ -107,6 +107,10 @@ var deepPats = []string{
 	`(?:a|b)*c`, `(a|b|c)*d`, `(?:(?:a|b)(?:b|c)?)*$`, `(a*?b*?c*?)*d`, `(?:a+?b*)+c`, `((a)|(b)|(c))+\2`, `(?:^){3}(a|b)*`,
 	`(?=(a+))a*b\1`, `(?<=(a|b)*)c`, `(a|ab|abc)*d`, `(?:a{1,3}b{0,2}){2,}c`, `(?>a|ab)*c`, `(?:(a)|(b)|(c)|(ab)|(bc)|(ca)|(abc))*$`,
 	`(a)?(?(1)b|c)*d`, `(?<x>a)+(?<-x>b)*c`, `(\w+\s?)*$`, `^(a+)+$`, `(.*?,){3}x`,
+	// the deep part runs in another interpreter mode (right-to-left inside a lookbehind, case-insensitive
+	// section) behind a leading set: what an aborted call leaves in the mode flags meets the next call's
+	// first-character search
+	`[a-c]+(?<=(a|b|c)*)`, `\w+(?<=(?:[a-z]\d?)+)`, `\d+(?<=(?:\d|\d\d)+)x?`, `\w(?i:(?:a|B)*)c`, `[ab]+(?<!(?:c|b)*d)`,
 }
 
 type c13ref struct {
